@@ -34,7 +34,9 @@ META = {
             'nonsingular (integer diagonally dominant, convection-diffusion, prescribed singular values, non-normal '
             'triangular perturbation) for gmres (both orthogonalisations), fgmres, cgnr, cgne; real and complex; '
             'M in {none, diagonal, alpha I + beta A, dense HPD with condition <= 10}; x0 in {none, 0, random, large, '
-            'exact}; non-trivial = K >= 2 and r0 != 0; distinct = distinct (solver, options, input) tuples',
+            'exact}; mixed dtypes for every solver (real A with complex b and/or complex x0, complex A with real b and x0, real A '
+            'with complex Hermitian M and real or complex b, float32/complex64 storage of A and M, all-single-precision '
+            'systems); non-trivial = K >= 2 and r0 != 0; distinct = distinct (solver, options, input) tuples',
     'search_only': [
         'GMRES with Householder reflections and FGMRES (native kernels apply_householders / householder_hornerscheme / '
         'apply_givens of krylov.h): executable models (Model/ExtC07Hh.lean: Householder vectors, Givens rotations, back '
@@ -56,6 +58,8 @@ META = {
         'bicgstab: the property promises no minimiser; "solved within n steps" is only counted (feature bicgstab-solved), '
         'never judged',
         'monotonicity and n-step termination in binary64 (theorems: exact arithmetic)',
+        'mixed dtypes and single precision: search only (exact complex oracle; single precision judged at 2e-3 on '
+        'kappa^(n/2) <= 1e3); real A + real b + complex x0: make_system discards Im(x0), judged from Re(x0)',
     ],
     'partial': [],
     'assumptions': [
@@ -355,9 +359,29 @@ def build(case):
         DH = D.conj().T.copy()
         return LinearOperator((n, n), matvec=lambda v: D @ v, rmatvec=lambda v: DH @ v, dtype=D.dtype)
 
+    st = case.get('store')
+    if st:
+        # mixed dtypes: the mathematics above is done in complex128, the OBJECTS handed to the solver are stored as declared
+        s.Aop = wrap(_store(s.A, st['A']), case['akind'])
+        s.Mop = None if s.M is None else wrap(_store(s.M, st['M']), case['mkind'])
+        s.b_in = _store(s.b, st['b'])
+        s.x0_in = None if s.x0 is None else _store(s.x0, st['x0'])
+        if st['A'] in 'df' and st['b'] in 'df' and s.x0 is not None:
+            # make_system takes the work dtype from A and b: a complex x0 is cast to real (ComplexWarning), the iteration
+            # starts from Re(x0)
+            s.x0d = s.x0.real.astype(s.A.dtype)
+        return s
     s.Aop = wrap(s.A, case['akind'])
     s.Mop = None if s.M is None else wrap(s.M, case['mkind'])
     return s
+
+
+def _store(a, code):
+    """'d' float64, 'D' complex128, 'f' float32, 'F' complex64 (real codes drop a zero imaginary part)"""
+    a = np.asarray(a)
+    if code in 'df':
+        a = a.real
+    return np.ascontiguousarray(a.astype({'d': np.float64, 'D': np.complex128, 'f': np.float32, 'F': np.complex64}[code]))
 
 
 def call(case, s, maxiter, M='case', restart=None, x0='case', tol=None):
@@ -366,7 +390,7 @@ def call(case, s, maxiter, M='case', restart=None, x0='case', tol=None):
     f = getattr(krylov, case['solver'])
     # no early exit before `maxiter` steps (callers never ask for more steps than the Krylov space has dimensions)
     kw = {'tol': 1e-300 if tol is None else tol, 'maxiter': maxiter}
-    x0 = s.x0 if isinstance(x0, str) else x0
+    x0 = getattr(s, 'x0_in', s.x0) if isinstance(x0, str) else x0
     if x0 is not None:
         kw['x0'] = x0.copy()
     Mop = s.Mop if isinstance(M, str) else M
@@ -385,7 +409,7 @@ def call(case, s, maxiter, M='case', restart=None, x0='case', tol=None):
     with warnings.catch_warnings():
         warnings.simplefilter('ignore')
         with np.errstate(all='ignore'):
-            x, info = f(s.Aop, s.b.copy(), **kw)
+            x, info = f(s.Aop, getattr(s, 'b_in', s.b).copy(), **kw)
     return np.asarray(x).ravel(), info, log
 
 
@@ -510,6 +534,9 @@ def fkey_of(case, s):
     """known-finding key of a failing input: ONLY preconditioned CR with a preconditioner that does not commute with A"""
     if case['solver'] == 'cr' and s.M is not None and not commutes(s):
         return 'cr-noncommuting-preconditioner'
+    st = case.get('store')
+    if st and s.M is not None and st['A'] in 'df' and st['b'] in 'df' and st['M'] in 'DF':
+        return 'complex-preconditioner-real-system'
     return None
 
 
@@ -590,8 +617,8 @@ def run_kry_cases(ctx, cases):
         if not cplx and not case['restart'] and (solver == 'gmres_mgs' or case['orthog'] == 'mgs') and s.n >= 2:
             it['gm'] = len(lines)
             lines.append(gmres_line(s, s.x0d, case['K']))
-        if not cplx and s.n >= 2:
-            # extension E11: restarted GMRES(MGS), GMRES(Householder), FGMRES models (binary64)
+        if not cplx and s.n >= 2 and all(v == 'd' for v in (case.get('store') or {}).values()):
+            # extension E11: restarted GMRES(MGS), GMRES(Householder), FGMRES models (binary64; all-double storage only)
             hh = solver == 'gmres_householder' or (solver == 'gmres' and case['orthog'] == 'householder')
             mgs = solver == 'gmres_mgs' or (solver == 'gmres' and case['orthog'] == 'mgs')
             if case['restart'] and mgs:
@@ -993,6 +1020,143 @@ def run_bicgstab(ctx, N):
 
 KSOLVERS = ['cg', 'cr', 'cgnr', 'cgne', 'gmres_mgs', 'gmres_householder', 'gmres', 'fgmres']
 
+# ------------------------------------------------------------------------------------------------
+# mixed dtypes: every solver with real A / complex b, real A / complex x0, complex A / real b and x0, real A with a complex
+# Hermitian M, single-precision storage of A and M -- judged by the same exact oracle (the mathematics is complex)
+# ------------------------------------------------------------------------------------------------
+
+MIXED = ['rA-cb', 'rA-cx0', 'rA-cb-cx0', 'cA-rb-rx0', 'rA-cM-cb', 'rA-cM-rb', 'f32A-db', 'c64A-rb']
+
+
+def make_mixed_case(rng, solver, kind, **kw):
+    want_c = kind.startswith(('cA', 'c64A'))
+    for _try in range(400):
+        case = make_case(rng, solver, **kw)
+        if case['cplx'] != want_c:
+            continue
+        A = np.atleast_2d(_dec(case['A'], want_c))
+        n = A.shape[0]
+        b = _dec(case['b'], want_c).ravel()
+        x0 = None if case['x0'] is None else _dec(case['x0'], want_c).ravel()
+        M = None if case['M'] is None else np.atleast_2d(_dec(case['M'], want_c))
+        base = 'D' if want_c else 'd'
+        store = {'A': base, 'b': base, 'x0': base, 'M': base}
+        if kind in ('rA-cb', 'rA-cb-cx0', 'rA-cM-cb'):
+            b = b + 1j * (A @ _rint(rng, n, -3, 3, False))
+            store['b'] = 'D'
+        if kind in ('rA-cx0', 'rA-cb-cx0'):
+            x0 = (np.zeros(n) if x0 is None else x0) + 1j * _rint(rng, n, -3, 3, False)
+            store['x0'] = 'D'
+        if kind in ('cA-rb-rx0', 'c64A-rb'):
+            b = b.real.copy()
+            x0 = None if x0 is None else x0.real.copy()
+            store['b'] = store['x0'] = 'd'
+        if kind in ('rA-cM-cb', 'rA-cM-rb'):
+            d = np.ones(n) if M is None else np.maximum(np.real(np.diag(M)), 1.0)
+            if M is not None and np.count_nonzero(M - np.diag(np.diag(M))):
+                ph = np.array([1, 1j, -1, -1j])[rng.integers(0, 4, size=n)]
+                M = (ph[:, None] * M) * ph.conj()[None, :]
+            else:
+                M = np.diag(d).astype(complex) + 0.25j * (np.eye(n, k=1) - np.eye(n, k=-1))
+            if n == 1 or not np.any(M.imag) or np.linalg.eigvalsh(M)[0] <= 0 or keff(solver, A, M) > kbound(n):
+                continue
+            store['M'] = 'D'
+            case['mfam'] = 'complex-hermitian'
+        if kind == 'f32A-db':
+            store['A'] = store['M'] = 'f'
+        if kind == 'c64A-rb':
+            store['A'] = store['M'] = 'F'
+        if kind in ('f32A-db', 'c64A-rb'):
+            A = _store(A, store['A']).astype(complex if want_c else float)
+            M = None if M is None else _store(M, store['M']).astype(complex if want_c else float)
+        anyc = want_c or 'D' in store.values() or 'F' in store.values()
+        case.update({'cplx': bool(anyc), 'A': _enc(A), 'b': _enc(b), 'x0': None if x0 is None else _enc(x0),
+                     'M': None if M is None else _enc(M), 'store': store, 'mixed': kind, 'xkind': case['xkind'] + '+' + kind})
+        return case
+    return None
+
+
+def run_mixed(ctx, per_solver):
+    rng = ctx.np_rng
+    kc, lc = [], []
+    for t in range(per_solver):
+        kind = MIXED[t % len(MIXED)]
+        for solver in KSOLVERS:
+            c = make_mixed_case(rng, solver, kind)
+            if c is not None:
+                kc.append(c)
+        for solver in ('steepest_descent', 'minimal_residual'):
+            c = make_mixed_case(rng, solver, kind, nmax=6)
+            if c is not None:
+                lc.append(c)
+    for c in kc + lc:
+        ctx.feat('mixed:' + c['mixed'])
+    run_kry_cases(ctx, kc)
+    run_line_cases(ctx, lc)
+
+
+def run_single(ctx, N):
+    """all-single-precision systems (float32 / complex64 A, b, x0, M): the solver works in single precision; judged by the
+    exact oracle with tolerance 2e-3 on systems with kappa^(n/2) <= 1e3"""
+    rng = ctx.np_rng
+    names = KSOLVERS + ['steepest_descent', 'minimal_residual']
+    items, lines = [], []
+    for t in range(N):
+        solver = names[t % len(names)]
+        for _try in range(200):
+            case = make_case(rng, solver, nmax=5)
+            s = build(case)
+            if case['restart'] or keff(solver, s.A, s.M) > min(100.0, 10.0 ** (6.0 / s.n)) or max(np.abs(s.x0d).max(), 1) > 100:
+                continue
+            break
+        else:
+            continue
+        cplx = case['cplx']
+        code = 'F' if cplx else 'f'
+        dt = complex if cplx else float
+        A, b = _store(s.A, code).astype(dt), _store(s.b, code).astype(dt)
+        x0 = None if s.x0 is None else _store(s.x0, code).astype(dt)
+        M = None if s.M is None else _store(s.M, code).astype(dt)
+        case.update({'A': _enc(A), 'b': _enc(b), 'x0': None if x0 is None else _enc(x0), 'M': None if M is None else _enc(M),
+                     'store': {'A': code, 'b': code, 'x0': code, 'M': code}, 'akind': 'dense', 'mkind': 'dense',
+                     'mixed': 'single', 'K': min(case['K'], s.n)})
+        s = build(case)
+        kind = KRY.get(solver) or LINE[solver]
+        it = {'case': case, 's': s, 'kind': kind, 'li': len(lines)}
+        lines.append(argmin_line(kind, s, cplx, s.x0d, 1 if solver in LINE else case['K']))
+        items.append(it)
+    rep = ctx.lean(lines, chunks=1) if lines else []
+    for it in items:
+        case, s, kind = it['case'], it['s'], it['kind']
+        solver, cplx = case['solver'], case['cplx']
+        am = parse_argmin(rep[it['li']], cplx)
+        ctx.case(key=_key('single', solver, s.A.tobytes(), s.Md.tobytes(), s.b.tobytes(), s.x0d.tobytes(), case['K']),
+                 nontrivial=s.n >= 2 and case['K'] >= 2)
+        ctx.feat('single-precision:' + solver)
+        if am is None or not am['cert']:
+            continue
+        pub = {'kind': 'single', **case}
+        K = 1 if solver in LINE else max(1, min(case['K'], grade_of(am, case['K'])))
+        try:
+            x, info, log = call(case, s, K, tol=1e-30)      # 1e-300 underflows to 0 in float32
+        except Exception as e:       # noqa: BLE001
+            ctx.violation(f'{solver} raised {type(e).__name__}: {e} on a single-precision system', pub, fkey=fkey_of(case, s))
+            continue
+        G = gram(kind, s)
+        N0 = gnorm(G, am['xs'] - s.x0d)
+        base = gnorm(G, am['xs']) + gnorm(G, s.x0d)
+        for j, xj in enumerate(log[:K], 1):
+            if j > len(am['ys']) or N0 == 0:
+                break
+            dev = gnorm(G, np.asarray(xj, dtype=complex if cplx else float) - am['ys'][j - 1])
+            if not np.isfinite(dev) or dev > 2e-3 * N0 + 2e-5 * base:
+                ctx.violation(f'{solver} (single precision): iterate {j} is not the minimiser of the {PROMISE[kind]} over the '
+                              f'{j}-dimensional Krylov space: distance to the minimiser {dev:.3g} (initial value {N0:.6g})',
+                              pub, fkey=fkey_of(case, s))
+                break
+
+
+
 
 def run(ctx):
     rng = ctx.np_rng
@@ -1007,6 +1171,8 @@ def run(ctx):
     run_line_cases(ctx, lcases)
     run_flexible(ctx, ctx.scale(30, 600))
     run_bicgstab(ctx, ctx.scale(30, 600))
+    run_mixed(ctx, ctx.scale(8, 96))
+    run_single(ctx, ctx.scale(20, 300))
 
 
 def search(ctx):
@@ -1026,6 +1192,8 @@ def replay(ctx, data):
         run_kry_cases(ctx, [{k: v for k, v in case.items() if k != 'kind'}])
     elif kind == 'line':
         run_line_cases(ctx, [{k: v for k, v in case.items() if k != 'kind'}])
+    elif kind == 'single':
+        print('   single-precision case: re-run `./check C07`; data in the replay file')
     elif kind == 'flex':
         log = judge_flexible(ctx, case)
         if log is not None and not case['cplx']:
